@@ -353,7 +353,14 @@ def p3(ctx, fx, I):
                 and const_value(av.call_node(b).kids[1]) not in ("_sd_alg", "cnf") and any(b in cfg.reach_strict(A, m) for m in mark)]
     if keys is not None and set(keys) == {"iss", "iat", "exp"} and len(keys) == 3 and removes and colls and mark and apps:
         c0, m0, a0 = colls[0], mark[0], apps[0]
-        order = m0 not in cfg.reachable(A, [0], removed_blocks=[c0]) and a0 not in cfg.reachable(A, [0], removed_blocks=[m0]) and not any(o in cfg.reachable(A, [0], removed_blocks=[a0]) for o in oks)
+        # claims that are not a JSON object have no root keys: the `None` edge of the `as_object_mut()` the removal goes through is a path
+        # on which there is nothing to remove
+        vac = []
+        for (rb, rn) in rem_calls:
+            for x in walk(rn.kids[0]) if rn.kids else []:
+                if x.kind == "call" and x.d["term"].get("name") in ("as_object_mut", "as_object") and x.fn is A:
+                    vac.extend(success_edges(A, x)[1])
+        order = m0 not in cfg.reachable(A, [0], removed_blocks=[c0], removed_edges=vac) and a0 not in cfg.reachable(A, [0], removed_blocks=[m0]) and not any(o in cfg.reachable(A, [0], removed_blocks=[a0]) for o in oks)
         if order:
             ctx.ok("C05.P3", A, "always-visible", "iss/iat/exp are removed from the claims before marking and appended in clear afterwards, on every Ok path")
         else:
